@@ -415,5 +415,5 @@ def replay(ctx: Ctx, case):
 
 def run(ctx: Ctx):
     q = ctx.tier == "quick"
-    run_given(ctx, "faults", cases(), check_faults, per_shard(ctx, 480 if q else 4800), batch=12)
+    run_given(ctx, "faults", cases(), check_faults, per_shard(ctx, 400 if q else 4800), batch=10)
     ctx.exhaustive_subdomains["complete fault space (kind x chunk x position, iterator failure before every chunk) per generated stream"] = 1
